@@ -11,6 +11,7 @@ Bounded progress: 20 s of process-virtual time per request.
 """
 import base64
 import copy
+import re
 import json
 import signal
 
@@ -964,7 +965,7 @@ class AnyTarget(object):
 
     def __init__(self, kind, validator, outkind=None):
         import pytz
-        from spyne import Application, Service, rpc, ComplexModel, AnyXml, AnyHtml, AnyDict, Any, DateTime, Date, Time, Unicode, Integer, Array, Iterable
+        from spyne import Application, Service, rpc, ComplexModel, AnyXml, AnyHtml, AnyDict, Any, DateTime, Date, Time, Unicode, Integer, Array, Iterable, Uuid
         from spyne.model.complex import XmlAttribute
         from spyne.server import ServerBase
         from spyne.server.wsgi import WsgiApplication
@@ -981,7 +982,8 @@ class AnyTarget(object):
         members = dict(x=AnyXml, h=AnyHtml, d=AnyDict, a=Any, ts=DateTime(serialize_as='sec'), tf=DateTime(serialize_as='sec_float'),
                        tm=DateTime(serialize_as='msec'), tu=DateTime(serialize_as='usec'), tz=DateTime(as_timezone=pytz.utc),
                        df=Date(date_format='%d.%m.%Y'), dt=DateTime(dt_format='%Y%m%dT%H%M%S'), xs=Array(AnyXml), ds=Array(AnyDict),
-                       it=Iterable(Integer), itd=Iterable(Date))
+                       it=Iterable(Integer), itd=Iterable(Date), ui=Uuid(serialize_as='int'), ub=Uuid(serialize_as='bytes'), uu=Uuid(serialize_as='urn'),
+                       uh=Uuid(serialize_as='hex'))
         if xmlish and validator != 'lxml':
             members['ax'] = XmlAttribute(AnyXml)          # (has no valid schema: not with the lxml validator)
         AK = type('AK', (ComplexModel,), dict(members, __namespace__=ns))
@@ -1037,14 +1039,20 @@ class AnyTarget(object):
         kind, ns = self.kind, self.ns
         k = {'x': '<a><b>1</b></a>', 'h': '<p>hi</p>', 'd': {'q': [1, {'r': 's'}]}, 'a': {'any': ['thing', 1]}, 'ts': 1600000000, 'tf': 1600000000.25,
              'tm': 1600000000000, 'tu': 1600000000000000, 'tz': '2020-01-01T00:00:00+02:00', 'df': '31.12.2020', 'dt': '20201231T235959',
-             'xs': ['<i/>', '<j>2</j>'], 'ds': [{'u': 1}], 'it': [1, 22], 'itd': ['2020-02-29']}
+             'xs': ['<i/>', '<j>2</j>'], 'ds': [{'u': 1}], 'it': [1, 22], 'itd': ['2020-02-29'], 'ui': 12345, 'ub': 'AAECAwQFBgcICQoLDA0ODw==', 'uu': 'urn:uuid:12345678-1234-1234-1234-123456789012',
+             'uh': '12345678123412341234123456789012'}
         if kind in ('xml', 'soap11', 'soap12'):
             body = ('<t:sink xmlns:t="%s"><t:k ax="&lt;z&gt;1&lt;/z&gt;"><t:x><a><b>1</b></a></t:x><t:h><p>hi</p></t:h><t:d><q>1</q><q><r>s</r></q></t:d>'
                     '<t:a><any>thing</any></t:a><t:ts>1600000000</t:ts><t:tf>1600000000.25</t:tf><t:tm>1600000000000</t:tm><t:tu>1600000000000000</t:tu>'
                     '<t:tz>2020-01-01T00:00:00+02:00</t:tz><t:df>31.12.2020</t:df><t:dt>20201231T235959</t:dt><t:xs><t:anyType><i/></t:anyType></t:xs>'
-                    '<t:ds><t:anyType><u>1</u></t:anyType></t:ds><t:it><t:integer>1</t:integer><t:integer>22</t:integer></t:it><t:itd><t:date>2020-02-29</t:date></t:itd></t:k><t:x><b/></t:x><t:d><w>1</w></t:d></t:sink>' % ns)
+                    '<t:ds><t:anyType><u>1</u></t:anyType></t:ds><t:it><t:integer>1</t:integer><t:integer>22</t:integer></t:it><t:itd><t:date>2020-02-29</t:date></t:itd><t:ui>12345</t:ui><t:ub>AAECAwQFBgcICQoLDA0ODw==</t:ub><t:uu>urn:uuid:12345678-1234-1234-1234-123456789012</t:uu><t:uh>12345678123412341234123456789012</t:uh></t:k><t:x><b/></t:x><t:d><w>1</w></t:d></t:sink>' % ns)
             if 'ax=' in body and not hasattr(self, 'conf') and self.wsgi.app.in_protocol.validator is not None and False:
                 pass
+            if kind != 'xml':
+                # the SOAP protocols read and write ISO dates and times whatever format the type asks for (their own __init__ says so)
+                for tag_, iso_ in (('ts', '2020-09-13T12:26:40'), ('tf', '2020-09-13T12:26:40.25'), ('tm', '2020-09-13T12:26:40'), ('tu', '2020-09-13T12:26:40'),
+                                   ('df', '2020-12-31'), ('dt', '2020-12-31T23:59:59')):
+                    body = re.sub(r'<t:%s>[^<]*</t:%s>' % (tag_, tag_), '<t:%s>%s</t:%s>' % (tag_, iso_, tag_), body)
             from lxml import etree as _et
             out = []
             for b in (body, '<t:bare_xml xmlns:t="%s"><a><b>1</b></a></t:bare_xml>' % ns, '<t:bare_dict xmlns:t="%s"><q>1</q></t:bare_dict>' % ns):
@@ -1062,7 +1070,7 @@ class AnyTarget(object):
             return out
         if kind == 'httprpc':
             pairs = [('k.x', k['x']), ('k.h', k['h']), ('k.ts', '1600000000'), ('k.tf', '1600000000.25'), ('k.tm', '1600000000000'), ('k.tu', '1600000000000000'),
-                     ('k.tz', k['tz']), ('k.df', k['df']), ('k.dt', k['dt']), ('k.xs[0]', '<i/>'), ('k.it[0]', '1'), ('k.it[1]', '22'), ('k.itd[0]', '2020-02-29'), ('x', '<b/>')]
+                     ('k.tz', k['tz']), ('k.df', k['df']), ('k.dt', k['dt']), ('k.xs[0]', '<i/>'), ('k.it[0]', '1'), ('k.it[1]', '22'), ('k.itd[0]', '2020-02-29'), ('k.ui', '12345'), ('k.uu', 'urn:uuid:12345678-1234-1234-1234-123456789012'), ('k.uh', '12345678123412341234123456789012'), ('x', '<b/>')]
             return [(('/sink', pairs), pairs)]
         docs = [{'sink': {'k': k, 'x': '<b/>', 'd': {'w': 1}}}, {'bare_xml': '<a><b>1</b></a>'}, {'bare_dict': {'q': [1]}}]
         if kind == 'msgpackrpc':
@@ -1086,12 +1094,17 @@ def any_kinds(R, spec, rng):
     HOSTILE = saved + [h for h in HOSTILE_ANY if isinstance(h, str)]
     try:
         for data, struct in T.requests():
+            before = R.counters.get('normal_responses', 0)
             if kind == 'httprpc':
                 path, pairs = data
                 process(R, T, b'', 'wsgi', 'valid', repro, path=path, qs=refflat.query_string(pairs))
             else:
                 for d in drivers:
                     process(R, T, data, d, 'valid', repro)
+            if R.counters.get('normal_responses', 0) - before != (1 if kind == 'httprpc' else len(drivers)):
+                # a sweep over a request that is refused as it stands shows nothing
+                R.inconclusive.append('any-kinds application (%s/%s): the unmutated request is not served' % (kind, validator))
+                continue
             leaf_sweep(R, T, rng, data, struct, repro, 'thorough', drivers)
             R.count('any_kinds_requests')
             if kind not in ('xml', 'soap11', 'soap12', 'httprpc'):
